@@ -487,9 +487,14 @@ class RadialProfile(ProfileBase):
         """
         return self._data_profile[0]
 
-    @lazyproperty
+    @property
     def data_profile(self):
         """
         The raw data profile as a 1D `~numpy.ndarray`.
         """
-        return self._data_profile[1]
+        # The raw data values are scaled by the current profile
+        # normalization (1.0 if the profile is not normalized) on
+        # every access. Previously normalize/unnormalize rescaled
+        # this array only if it had already been accessed, so its
+        # values depended on the order of the calls.
+        return self._data_profile[1] / self.normalization_value
